@@ -139,7 +139,9 @@ def spliced_docs(blocks, per_doc=120):
     for ch in pool.chunks(blocks, per_doc):
         init = [[B.P(0x80), B.P(0x40), B.I("MSTORE"), B.I("CALLVALUE"), B.I("DUP1"), B.I("ISZERO"),
                  B.I("PUSH [tag]", "1"), B.I("JUMPI")], [B.P(0), B.I("DUP1"), B.I("REVERT")]]
-        out.append(docs.make_doc({"gen.sol:G": docs.make_contract(init, ch)}))
+        # every third document has a second and a third code-bearing data section
+        more = (ch[:7], ch[7:11]) if len(out) % 3 == 1 and len(ch) > 11 else ()
+        out.append(docs.make_doc({"gen.sol:G": docs.make_contract(init, ch, more_run_blocks=more)}))
     return out
 
 
@@ -149,7 +151,8 @@ def unit_sets(tier):
     if tier == "quick":
         yield "shipped(4 smallest)", [("file", f) for f in shipped[:4]], c1[:1] + [c for c in c1 if "-storage" in c or "-size" in c]
         yield "spliced(MIXED,3)", [("doc", d) for d in spliced_docs(list(B.tree(B.MIXED, 3)))], c1
-        yield "grammar", [("doc", d) for d in list(c15.gen_docs())[::3]], c1[:1] + [c for c in c1 if "-push0" in c]
+        gd = list(c15.gen_docs())
+        yield "grammar", [("doc", d) for d in gd[::3] + gd[-3:]], c1[:1] + [c for c in c1 if "-push0" in c]
     else:
         yield "shipped(all)", [("file", f) for f in shipped], c1[:1] + [c for c in c1 if "-storage" in c]
         yield "shipped(4 smallest)", [("file", f) for f in shipped[:4]], c1
